@@ -876,6 +876,12 @@ func genTopo(prop string) func(tier string, seed uint64, idx int) *simkit.Plan {
 			}
 			return simkit.St("mutate", rng.Uint64(), "node", n, "what", "add", "vid", vid, "rp", d.rp, "ttl", d.ttl, "disk", d.disk, "col", d.col, "size", sz, "ro", ro)
 		}
+		// EC volume ids: usually apart from the normal volumes' ids; in a third of the runs the same ids (a volume
+		// that was EC-encoded keeps its id, and the normal copy and the shards coexist for a while)
+		ecBase, ecSpan := 50, 3
+		if rng.Chance(1, 3) {
+			ecBase, ecSpan = 1, nVids
+		}
 		steps := rng.Range(10, 45)
 		for i := 0; i < steps; i++ {
 			n := rng.Intn(nServers)
@@ -900,12 +906,12 @@ func genTopo(prop string) func(tier string, seed uint64, idx int) *simkit.Plan {
 			case x < 55 && prop == "C12":
 				p.Add(simkit.St("mutate", rng.Uint64(), "node", n, "what", "max", "disk", disks[rng.Intn(3)], "n", rng.Range(0, 12)))
 			case x < 62 && prop == "C12":
-				p.Add(simkit.St("mutate", rng.Uint64(), "node", n, "what", "ecadd", "vid", 50+rng.Intn(3), "bits", 1+rng.Intn(1<<14-1), "disk", disks[rng.Intn(3)], "col", defs[vid].col))
+				p.Add(simkit.St("mutate", rng.Uint64(), "node", n, "what", "ecadd", "vid", ecBase+rng.Intn(ecSpan), "bits", 1+rng.Intn(1<<14-1), "disk", disks[rng.Intn(3)], "col", defs[vid].col))
 				if rng.Chance(1, 2) {
-					p.Add(simkit.St("mutate", rng.Uint64(), "node", n, "what", "ecadd", "vid", 50+rng.Intn(3), "bits", 1+rng.Intn(1<<14-1), "disk", "", "col", ""))
+					p.Add(simkit.St("mutate", rng.Uint64(), "node", n, "what", "ecadd", "vid", ecBase+rng.Intn(ecSpan), "bits", 1+rng.Intn(1<<14-1), "disk", "", "col", ""))
 				}
 			case x < 66 && prop == "C12":
-				p.Add(simkit.St("mutate", rng.Uint64(), "node", n, "what", "ecdel", "vid", 50+rng.Intn(3), "bits", 1+rng.Intn(1<<14-1)))
+				p.Add(simkit.St("mutate", rng.Uint64(), "node", n, "what", "ecdel", "vid", ecBase+rng.Intn(ecSpan), "bits", 1+rng.Intn(1<<14-1)))
 			case x < 70 && prop == "C12":
 				if faults && rng.Chance(1, 2) {
 					p.Add(simkit.St("ecdelta", rng.Uint64(), "node", n, "stale", 1, "bits", 1+rng.Intn(1<<14-1)))
